@@ -13,7 +13,7 @@ HOOKS = dict(
     add_only=True,
 )
 
-CHECKS_IDS = ["C01", "C02", "C05", "C06", "C07", "C11", "C16"]
+CHECKS_IDS = ["C01", "C02", "C05", "C06", "C07", "C11", "C13", "C16"]
 
 ENGINES = [
     dict(name="mc", path="/verif/mc",
@@ -100,6 +100,19 @@ CHECKS = {
         note="Real MOSEK is not installed: the MOSEK side is the stand-in (records the task, solves it through CLARABEL, "
              "answers in MOSEK's documented conventions, self-checks MOSEK's dual equations). Bounded by the grammar.",
     ),
+    "C13": dict(
+        category="model_checking",
+        technique="explicit enumeration of all solve / edit / evaluate / solver-answer sequences <= 3 (4) on four base models; "
+                  "differential oracle against a freshly built equivalent model + certificate / instance of the latest solve",
+        text="Every sequence over 5 solve variants (dual, primal, trace, logdet1, MOSEK path), 7 edits, evaluation of held "
+             "objects, creation of derived objects and 2 injected solver answers (<= 2 deviations) is executed on one "
+             "long-lived problem; after its last solve the problem is compared with a freshly built model carrying the same "
+             "edits: returned value, numbering-free multiset of the data sent (so growth with the number of solves is "
+             "visible), certificate and instance of the latest solve, eval() of every held object against the current "
+             "solution, no dual left on constraints that are no longer sent, and ValueError after a solve without solution.",
+        note="Bound: depth 3 (quick) / 4 (thorough) on 4 base models (plain GD, block-smooth + partition, quadratic class with "
+             "class LMI, composite + prox + user LMI). CLARABEL tolerance 2e-5 on values.",
+    ),
     "C16": dict(
         category="model_checking",
         technique="explicit enumeration of all histories <= 3 (4) over {real solve, injected 'no value' / 'error' solver "
@@ -118,5 +131,5 @@ CHECKS = {
 
 _PENDING = "check not built yet in this session (planned, see DESIGN.md section 4); not claimed until it has run clean and caught a mutant"
 NOT_APPLICABLE = {k: _PENDING for k in
-                  ["C03", "C04", "C05", "C08", "C09", "C10", "C12", "C13", "C14", "C15",
+                  ["C03", "C04", "C05", "C08", "C09", "C10", "C12", "C14", "C15",
                    "C17"]}
